@@ -13,7 +13,9 @@ use vcore::{CaseInfo, Failure, Part, SubCheck};
 #[derive(Clone, Debug, Serialize, Deserialize)]
 pub struct Stall {
     /// 0 http, 1 socks5, 2 socks4, 3 socks5 with userpass on the auth listener (a client that goes silent inside the handshake);
-    /// 4 http, 5 socks5, 6 socks4, 7 quic: a request routed to a connector whose upstream goes silent inside *its* handshake
+    /// 4 http, 5 socks5, 6 socks4, 7 quic: a request routed to a connector whose upstream goes silent inside *its* handshake;
+    /// 8: a chatty reverse-UDP client whose session is routed to such a silent upstream (300 datagrams);
+    /// 9: a QUIC client that goes silent after its first handshake packet
     pub kind: u8,
     /// selector for the number of handshake bytes sent before going silent
     pub at: u16,
@@ -31,7 +33,7 @@ pub struct Case {
 
 pub fn case_strategy() -> impl Strategy<Value = Case> {
     (
-        prop::collection::vec((prop_oneof![3 => 0u8..4, 2 => 4u8..8], any::<u16>()).prop_map(|(kind, at)| Stall { kind, at }), 0..10),
+        prop::collection::vec((prop_oneof![6 => 0u8..4, 4 => 4u8..8, 1 => Just(8u8), 1 => Just(9u8)], any::<u16>()).prop_map(|(kind, at)| Stall { kind, at }), 0..10),
         0u8..3,
         prop::collection::vec(0u8..7, 1..8),
         1u8..3,
@@ -56,6 +58,11 @@ struct Fx {
     _sink_task: tokio::task::JoinHandle<()>,
     /// how many bytes of its reply the next silent upstream connection sends before it goes quiet
     up_at: std::sync::Arc<std::sync::atomic::AtomicU32>,
+    revudp: u16,
+    quic: u16,
+    /// the one UDP client whose reverse-UDP session is routed to the silent upstream
+    flooder: std::sync::Arc<tokio::net::UdpSocket>,
+    rules: serde_json::Value,
     _up_tasks: Vec<tokio::task::JoinHandle<()>>,
     _qep: quinn::Endpoint,
 }
@@ -100,6 +107,17 @@ async fn fixture() -> Result<Fx, String> {
             }
         }));
     }
+    let (revudp, quic) = (free_port(), free_port());
+    let flooder = std::sync::Arc::new(tokio::net::UdpSocket::bind("127.0.0.1:0").await.map_err(|e| e.to_string())?);
+    let flood_port = flooder.local_addr().unwrap().port();
+    let uecho = tokio::net::UdpSocket::bind("127.0.0.1:0").await.map_err(|e| e.to_string())?;
+    let uecho_addr = uecho.local_addr().unwrap();
+    up_tasks.push(tokio::spawn(async move {
+        let mut b = vec![0u8; 65536];
+        while let Ok((n, from)) = uecho.recv_from(&mut b).await {
+            let _ = uecho.send_to(&b[..n], from).await;
+        }
+    }));
     let (qep, qport) = crate::tlsutil::quic_server("server");
     let qep2 = qep.clone();
     up_tasks.push(tokio::spawn(async move {
@@ -135,6 +153,16 @@ listeners:
   - name: reverse
     bind: 127.0.0.1:{reverse}
     target: {origin}
+  - name: revudp
+    type: reverse
+    protocol: udp
+    bind: 127.0.0.1:{revudp}
+    target: {uecho}
+  - name: quic
+    bind: 127.0.0.1:{quic}
+    tls:
+      cert: /verif/pki/server.crt
+      key: /verif/pki/server.key
 connectors:
   - name: direct
   - name: uphttp
@@ -158,6 +186,8 @@ connectors:
     tls:
       ca: /verif/pki/ca.crt
 rules:
+  - filter: request.listener == "revudp" && request.source.port == {flood_port}
+    target: uphttp
   - filter: request.target.port == 1
     target: uphttp
   - filter: request.target.port == 2
@@ -186,8 +216,20 @@ ioParams:
         up0 = up_ports[0],
         up1 = up_ports[1],
         up2 = up_ports[2],
-        qport = qport
+        qport = qport,
+        revudp = revudp,
+        quic = quic,
+        uecho = uecho_addr,
+        flood_port = flood_port
     );
+    let rules = json!([
+        {"filter": format!("request.listener == \"revudp\" && request.source.port == {}", flood_port), "target": "uphttp"},
+        {"filter": "request.target.port == 1", "target": "uphttp"},
+        {"filter": "request.target.port == 2", "target": "upsocks5"},
+        {"filter": "request.target.port == 3", "target": "upsocks4"},
+        {"filter": "request.target.port == 4", "target": "upquic"},
+        {"target": "direct"}
+    ]);
     let proxy = tokio::task::spawn_blocking(move || Proxy::start("c14", &yaml, &[http, socks, socks_auth, reverse, api], Some(api))).await.map_err(|e| e.to_string())??;
     Ok(Fx {
         proxy,
@@ -200,6 +242,10 @@ ioParams:
         sink,
         _sink_task: sink_task,
         up_at,
+        revudp,
+        quic,
+        flooder,
+        rules,
         _up_tasks: up_tasks,
         _qep: qep,
     })
@@ -220,7 +266,7 @@ fn handshake_bytes(kind: u8, target: std::net::SocketAddr) -> Vec<u8> {
 
 const API_NAMES: &[&str] = &["GET /api/status", "GET /api/live", "GET /api/history", "GET /api/rules", "GET /api/metrics", "POST /api/rules", "POST /api/logrotate"];
 
-async fn api_call(port: u16, which: u8, dur: Duration) -> Result<(), String> {
+async fn api_call(port: u16, which: u8, dur: Duration, rules: &serde_json::Value) -> Result<(), String> {
     match which % 7 {
         0 => api(port, "GET", "/api/status", None, dur).await.map(|_| ()),
         1 => api(port, "GET", "/api/live", None, dur).await.map(|_| ()),
@@ -228,15 +274,8 @@ async fn api_call(port: u16, which: u8, dur: Duration) -> Result<(), String> {
         3 => api(port, "GET", "/api/rules", None, dur).await.map(|_| ()),
         4 => api(port, "GET", "/api/metrics", None, dur).await.map(|_| ()),
         5 => {
-            // the same list the configuration installs (the stalled-upstream routes must survive the POST)
-            let body = serde_json::to_vec(&json!([
-                {"filter": "request.target.port == 1", "target": "uphttp"},
-                {"filter": "request.target.port == 2", "target": "upsocks5"},
-                {"filter": "request.target.port == 3", "target": "upsocks4"},
-                {"filter": "request.target.port == 4", "target": "upquic"},
-                {"target": "direct"}
-            ]))
-            .unwrap();
+// the same list the configuration installs (the stalled-upstream routes must survive the POST)
+            let body = serde_json::to_vec(rules).unwrap();
             let r = api(port, "POST", "/api/rules", Some(&body), dur).await?;
             if r.status / 100 == 2 {
                 Ok(())
@@ -250,8 +289,53 @@ async fn api_call(port: u16, which: u8, dur: Duration) -> Result<(), String> {
 
 /// one small echo tunnel through the given listener
 async fn fresh_tunnel(fx: &Fx, listener: u8, dur: Duration) -> Result<(), String> {
+    if listener % 6 == 4 {
+        // a fresh reverse-UDP client: one datagram, one echo
+        let fut = async {
+            let u = tokio::net::UdpSocket::bind("127.0.0.1:0").await.map_err(|e| e.to_string())?;
+            let mut b = [0u8; 64];
+            // UDP may lose a datagram: three attempts inside the bound
+            for _ in 0..3 {
+                u.send_to(b"fresh-udp-client", lo(fx.revudp)).await.map_err(|e| e.to_string())?;
+                if let Ok(Ok((n, _))) = tokio::time::timeout(dur / 3, u.recv_from(&mut b)).await {
+                    if &b[..n] == b"fresh-udp-client" {
+                        return Ok(());
+                    }
+                }
+            }
+            Err("no echo".to_string())
+        };
+        return match tokio::time::timeout(dur + Duration::from_millis(200), fut).await {
+            Ok(r) => r,
+            Err(_) => Err("timeout".into()),
+        };
+    }
+    if listener % 6 == 5 {
+        // a fresh QUIC client: handshake, CONNECT on a stream, echo
+        let fut = async {
+            let ep = crate::tlsutil::quic_client("ca.crt", None);
+            let conn = ep.connect(lo(fx.quic), "localhost").map_err(|e| e.to_string())?.await.map_err(|e| format!("quic handshake: {}", e))?;
+            let (mut w, mut r) = conn.open_bi().await.map_err(|e| e.to_string())?;
+            let t = dest_for(fx.origin.addr).authority();
+            w.write_all(&rc::encode_connect(&t, &[(b"Host".to_vec(), t.clone())])).await.map_err(|e| e.to_string())?;
+            let mut buf = vec![];
+            let mut b = [0u8; 512];
+            while rc::parse_http_head(&buf, true).is_none() {
+                match r.read(&mut b).await {
+                    Ok(Some(n)) if n > 0 => buf.extend_from_slice(&b[..n]),
+                    other => return Err(format!("no reply on the stream: {:?}", other)),
+                }
+            }
+            conn.close(0u32.into(), b"");
+            Ok(())
+        };
+        return match tokio::time::timeout(dur, fut).await {
+            Ok(r) => r,
+            Err(_) => Err("timeout".into()),
+        };
+    }
     let fut = async {
-        let (port, kind) = match listener % 4 {
+        let (port, kind) = match listener % 6 {
             0 => (fx.http, 0),
             1 => (fx.socks, 1),
             2 => (fx.socks, 2),
@@ -282,18 +366,19 @@ async fn fresh_tunnel(fx: &Fx, listener: u8, dur: Duration) -> Result<(), String
     }
 }
 
-const LISTENER_NAMES: &[&str] = &["http", "socks5", "socks4", "reverse"];
+const LISTENER_NAMES: &[&str] = &["http", "socks5", "socks4", "reverse", "reverse-udp", "quic"];
+const NL: u8 = 6;
 
 pub async fn run_case(c: &Case) -> Result<(bool, serde_json::Value), Failure> {
     let bound = Duration::from_secs(6);
     let fx = fixture().await.map_err(|e| Failure::new("infrastructure", e))?;
     // ---- control: everything works and is fast before the stall set exists
     let t0 = Instant::now();
-    for l in 0..4u8 {
+    for l in 0..NL {
         fresh_tunnel(&fx, l, bound).await.map_err(|e| Failure::new("infrastructure", format!("control tunnel via {} failed: {}", LISTENER_NAMES[l as usize], e)))?;
     }
     for a in 0..7u8 {
-        api_call(fx.api, a, bound).await.map_err(|e| Failure::new("infrastructure", format!("control {} failed: {}", API_NAMES[a as usize], e)))?;
+        api_call(fx.api, a, bound, &fx.rules).await.map_err(|e| Failure::new("infrastructure", format!("control {} failed: {}", API_NAMES[a as usize], e)))?;
     }
     let control = t0.elapsed();
     if control > Duration::from_millis(1500) {
@@ -303,7 +388,52 @@ pub async fn run_case(c: &Case) -> Result<(bool, serde_json::Value), Failure> {
     let mut held: Vec<TcpStream> = vec![];
     let mut inside = false;
     let mut stall_desc = vec![];
+    let mut relays: Vec<tokio::task::JoinHandle<()>> = vec![];
     for st in &c.stalls {
+        if st.kind == 8 {
+            // the session of this client is routed to an upstream that never completes its handshake;
+            // the client keeps sending
+            fx.up_at.store(st.at as u32, std::sync::atomic::Ordering::SeqCst);
+            for i in 0..300u32 {
+                let _ = fx.flooder.send_to(&vec![(i & 0xff) as u8; 200], lo(fx.revudp)).await;
+                if i % 20 == 19 {
+                    tokio::time::sleep(Duration::from_millis(2)).await;
+                }
+            }
+            inside = true;
+            stall_desc.push("reverse-udp-client-300-datagrams-to-silent-upstream".to_string());
+            continue;
+        }
+        if st.kind == 9 {
+            // a QUIC client whose first packet arrives and nothing after it (a relay drops the rest)
+            let relay = tokio::net::UdpSocket::bind("127.0.0.1:0").await.map_err(|e| Failure::new("infrastructure", e.to_string()))?;
+            let raddr = relay.local_addr().unwrap();
+            let qport = fx.quic;
+            let let_through = 1 + (st.at % 2) as usize;
+            relays.push(tokio::spawn(async move {
+                let out = tokio::net::UdpSocket::bind("127.0.0.1:0").await.unwrap();
+                let mut b = vec![0u8; 65536];
+                let mut n_fwd = 0usize;
+                loop {
+                    if let Ok((n, _)) = relay.recv_from(&mut b).await {
+                        if n_fwd < let_through {
+                            let _ = out.send_to(&b[..n], lo(qport)).await;
+                            n_fwd += 1;
+                        }
+                    }
+                }
+            }));
+            relays.push(tokio::spawn(async move {
+                let ep = crate::tlsutil::quic_client("ca.crt", None);
+                if let Ok(c) = ep.connect(raddr, "localhost") {
+                    let _ = tokio::time::timeout(Duration::from_secs(20), c).await;
+                }
+            }));
+            tokio::time::sleep(Duration::from_millis(100)).await;
+            inside = true;
+            stall_desc.push(format!("quic-client-silent-after-{}-packets", let_through));
+            continue;
+        }
         if st.kind % 8 >= 4 {
             // a request whose upstream goes silent inside the connector's handshake
             let via = (st.kind % 8 - 4) as usize;
@@ -363,15 +493,16 @@ pub async fn run_case(c: &Case) -> Result<(bool, serde_json::Value), Failure> {
     for a in &c.api_calls {
         let port = fx.api;
         let a = *a;
+        let rules = fx.rules.clone();
         api_handles.push(tokio::spawn(async move {
             let t = Instant::now();
-            let r = api_call(port, a, bound).await;
+            let r = api_call(port, a, bound, &rules).await;
             (a, r, t.elapsed())
         }));
     }
     let mut fresh_results = vec![];
     for round in 0..c.fresh_rounds {
-        for l in 0..4u8 {
+        for l in 0..NL {
             let t = Instant::now();
             let r = fresh_tunnel(&fx, l, bound).await;
             fresh_results.push((l, round, r, t.elapsed()));
@@ -382,7 +513,7 @@ pub async fn run_case(c: &Case) -> Result<(bool, serde_json::Value), Failure> {
         api_results.push(h.await.map_err(|e| Failure::new("infrastructure", e.to_string()))?);
     }
     // once more, after the concurrent API calls were issued
-    for l in 0..4u8 {
+    for l in 0..NL {
         let t = Instant::now();
         let r = fresh_tunnel(&fx, l, bound).await;
         fresh_results.push((l, 99, r, t.elapsed()));
@@ -390,7 +521,7 @@ pub async fn run_case(c: &Case) -> Result<(bool, serde_json::Value), Failure> {
     let shape = if c.stalls.is_empty() && c.blocked_tunnels == 0 {
         "no-stall".to_string()
     } else {
-        let mut kinds: Vec<&str> = c.stalls.iter().map(|s| ["http", "socks5", "socks4", "socks5-auth", "upstream-http", "upstream-socks5", "upstream-socks4", "upstream-quic"][(s.kind % 8) as usize]).collect();
+        let mut kinds: Vec<&str> = c.stalls.iter().map(|s| ["http", "socks5", "socks4", "socks5-auth", "upstream-http", "upstream-socks5", "upstream-socks4", "upstream-quic", "reverse-udp-chatty", "quic-handshake"][(s.kind % 10) as usize]).collect();
         if c.blocked_tunnels > 0 {
             kinds.push("blocked-tunnel");
         }
@@ -427,6 +558,9 @@ pub async fn run_case(c: &Case) -> Result<(bool, serde_json::Value), Failure> {
         return Err(Failure::new("proxy-died", format!("the proxy exited: {}", fx.proxy.log_tail(8))));
     }
     drop(held);
+    for r in relays {
+        r.abort();
+    }
     Ok((
         inside && !c.api_calls.is_empty(),
         json!({"stalls": stall_desc, "api_calls": c.api_calls.iter().map(|a| API_NAMES[(*a % 7) as usize]).collect::<Vec<_>>(), "fresh_tunnels": fresh_results.len(),
@@ -443,7 +577,7 @@ impl SubCheck for StallCheck {
         "stalls"
     }
     fn rule(&self) -> String {
-        "generated schedules, each on a fresh real proxy: 0-9 clients stalled after k bytes of a valid handshake (HTTP CONNECT head, SOCKS5 greeting+request, SOCKS4 request, SOCKS5 with userpass; k drawn over every offset 0..len) or requests routed to an http / socks5 / socks4 / quic connector whose upstream accepts, sends a generated strict prefix of a valid reply (0..len-1 bytes) and goes silent, 0-2 established tunnels whose far consumer never reads (filled until the writer blocks), then 1-7 API calls (status, live, history, rules GET, metrics, rules POST, logrotate) issued concurrently with fresh echo tunnels through the http, socks5, socks4 and reverse listeners; oracle: every API call and every fresh tunnel completes within 6 s (the same calls take < 1.5 s in total in the control phase before the stall set; a slower control makes the case inconclusive); non-trivial = some stall strictly inside a handshake message and at least one concurrent API call".into()
+        "generated schedules, each on a fresh real proxy: 0-9 clients stalled after k bytes of a valid handshake (HTTP CONNECT head, SOCKS5 greeting+request, SOCKS4 request, SOCKS5 with userpass; k drawn over every offset 0..len) or requests routed to an http / socks5 / socks4 / quic connector whose upstream accepts, sends a generated strict prefix of a valid reply (0..len-1 bytes) and goes silent, a reverse-UDP client that keeps sending 300 datagrams into a session hanging on such an upstream, a QUIC client of which only the first one or two handshake packets arrive, 0-2 established tunnels whose far consumer never reads (filled until the writer blocks), then 1-7 API calls (status, live, history, rules GET, metrics, rules POST, logrotate) issued concurrently with fresh echo tunnels through the http, socks5, socks4, reverse, reverse-UDP and QUIC listeners; oracle: every API call and every fresh tunnel completes within 6 s (the same calls take < 1.5 s in total in the control phase before the stall set; a slower control makes the case inconclusive); non-trivial = some stall strictly inside a handshake message and at least one concurrent API call".into()
     }
     fn run(&self, part: &mut Part) {
         let n = part.tier.pick(40, 600) as usize;
